@@ -378,6 +378,17 @@ pub fn image_words() -> impl Strategy<Value = Vec<u16>> {
         2 => (0x20u16..0x28).prop_map(|v| 0xF000 | v),
         1 => Just(0xF025u16),
         1 => Just(0xC1C0u16),
+        // instructions whose encoding has unused bits, with those bits set at random: TRAP x20-x27
+        // (bits 11:8), RET / JMP (11:9, 5:0), JSRR (10:9, 5:0), RETS (9:0), PUSH / POP (9, 5:0), NOT (5:0 are ones)
+        3 => (
+            prop::sample::select(vec![
+                (0xF025u16, 0x0F00u16), (0xF025, 0x0F00), (0xF021, 0x0F00), (0xF022, 0x0F00), (0xF027, 0x0F00), (0xF020, 0x0F00),
+                (0xC1C0, 0x0E3F), (0xC1C0, 0x0E3F), (0xC080, 0x0E3F), (0x4080, 0x063F), (0x41C0, 0x063F),
+                (0xD800, 0x03FF), (0xD440, 0x023F), (0xD040, 0x023F),
+            ]),
+            any::<u16>()
+        )
+            .prop_map(|((base, mask), r)| base | (r & mask)),
     ];
     prop::collection::vec(word, 1..40)
 }
